@@ -20,8 +20,8 @@ class Model:
     def __init__(self, n):
         names = ["a", "b", "a"][:n]
         self.cols = {"name": list(names), "x": [1.5 * (i + 1) for i in range(n)], "y": [i + 1 for i in range(n)],
-                     "o": [OBJS[i] for i in range(n)]}
-        self.order = ["name", "x", "y", "o"]
+                     "o": [OBJS[i] for i in range(n)], "m": [[1.0 * i, i + 0.5] for i in range(n)]}
+        self.order = ["name", "x", "y", "o", "m"]
         self.index = "name"
         self.scalars = {"q": SCALAR}
 
@@ -39,6 +39,8 @@ def cell(v):
         import numpy as np
         if isinstance(v, np.generic):
             v = v.item()
+        elif isinstance(v, np.ndarray):
+            v = v.tolist()
     except ImportError:
         pass
     if isinstance(v, float) and v != v:
@@ -49,7 +51,7 @@ def cell(v):
 ROWSELS = [("slice", 1, None, None), ("slice", None, None, 2), ("slice", None, None, -1), ("slice", 0, 0, None),
            ("list", (0,)), ("list", (1, 0)), ("list", ()), ("maskall",), ("maskalt",), ("regex", "a.*"), ("regex", "zz"),
            ("int", 0), ("head", 1), ("tail", 2), ("neg",)]
-COLSELS = ["x", "x y", ["y"], "x+y", "x+2*y", "o", ["x", "x*x"]]
+COLSELS = ["x", "x y", ["y"], "x+y", "x+2*y", "o", ["x", "x*x"], "m y"]
 
 
 def universe():
@@ -65,7 +67,7 @@ def expr_cols(spec):
 
 
 def needs(expr):
-    return [c for c in ("x", "y", "o", "z") if c in expr.replace("zz", "")]
+    return [c for c in ("x", "y", "o", "z", "m") if c in expr.replace("zz", "")]
 
 
 class System(simple.SimpleSystem):
@@ -85,9 +87,9 @@ class System(simple.SimpleSystem):
         for i, v in enumerate(m.cols["o"]):
             o[i] = v
         data = {"name": np.array(m.cols["name"], dtype=object), "x": np.array(m.cols["x"], dtype=float),
-                "y": np.array(m.cols["y"], dtype=int), "o": o, "q": SCALAR}
-        t = Table(data, col_names=["name", "x", "y", "o"])
-        return {"t": t, "m": m, "src": None}
+                "y": np.array(m.cols["y"], dtype=int), "o": o, "m": np.array(m.cols["m"], dtype=float).reshape(m.n(), 2), "q": SCALAR}
+        t = Table(data, col_names=["name", "x", "y", "o", "m"])
+        return {"t": t, "m": m, "src": None, "anc": []}
 
     def enabled(self, live, hist):
         m = live["m"]
@@ -214,7 +216,8 @@ class System(simple.SimpleSystem):
             newcols = {"columns": list(m.order)}
             order = ["columns"]
             for r in range(n):
-                newcols[f"row{r}"] = [str(m.cols[c][r]) for c in m.order]
+                newcols[f"row{r}"] = [str(np.array(m.cols[c][r], dtype=float)) if isinstance(m.cols[c][r], list) else str(m.cols[c][r])
+                                      for c in m.order]
                 order.append(f"row{r}")
             m.cols, m.order, m.index, m.scalars = newcols, order, "columns", {}
         elif k == "setcol":
@@ -239,6 +242,7 @@ class System(simple.SimpleSystem):
         else:
             raise ValueError(op)
         if derived is not None:
+            live["anc"].append((t, list(t._col_names), len(t)))
             live["t"] = derived
         if m.order is None:
             m.order = list(live["t"]._col_names)
@@ -305,6 +309,18 @@ class System(simple.SimpleSystem):
             if now != snap:
                 issues.append(self.issue(hist, op, "deriving a table changed its source", {"before": snap, "after": now}))
         live["src"] = None
+        # every table produced earlier in the history is still a well-formed table with the columns and length it had
+        # (cell VALUES may change through shared arrays; that is not claimed by the property)
+        for gen, (anc, names, length) in enumerate(live["anc"]):
+            pa = rect_problems(anc)
+            if not pa and list(anc._col_names) != names:
+                pa = [f"its column list changed from {names!r} to {list(anc._col_names)!r}"]
+            if not pa and len(anc) != length:
+                pa = [f"its length changed from {length} to {len(anc)}"]
+            if pa:
+                issues.append(self.issue(hist, op, f"a table produced earlier (derivation #{gen} of the history) was damaged by a later operation "
+                                                   f"on a table derived from it: {pa[0]}"))
+                return issues
         # rectangular
         problems = rect_problems(t)
         if problems:
